@@ -1,6 +1,7 @@
 mod body;
 mod common;
 mod alloc;
+mod asyncm;
 mod fes;
 mod gates;
 mod net;
@@ -23,6 +24,7 @@ fn main() {
         ("props", "replay") => props::replay(&args[2..]),
         ("props", "slots") => props::replay_slots(&args[2..]),
         ("body", "replay") => body::replay(&args[2..]),
+        ("asyncm", "replay") => asyncm::replay(&args[2..]),
         ("tree", "replay") => tree::replay(&args[2..]),
         ("net", "replay") => net::replay(&args[2..]),
         ("gates", "replay") => gates::replay(&args[2..]),
